@@ -224,6 +224,7 @@ def _rand_c18(rng, tier, sc0):
             c["size"] = rng.choice([20, 60, 500])
         steps = [{"op": "Start", "append": rng.random() < 0.3}]
         nfam = 0
+        steps_cfg = [c]
         for _ in range(rng.choice([4, 10, 25])):
             x = rng.random()
             if x < 0.12:
@@ -246,6 +247,29 @@ def _rand_c18(rng, tier, sc0):
                 if rng.random() < 0.3:
                     c2 = {"rot": False, "naming": "Num", **{k: c[k] for k in ("mode", "cap", "flush_ms") if k in c}}
                 c2.update({"subdir": f"fam{nfam}", "basename": f"app{nfam}", "full": True})
+                if nfam == 1 and rng.random() < 0.5:
+                    # (only as the first reset of a history, so that the families in one directory stay disjoint)
+                    # same file spec, only the rotation settings change (families told apart by their names:
+                    # no rotation <-> rotation, or number-direct <-> timestamp-direct infixes)
+                    cur = steps_cfg[-1]
+                    if not cur.get("rot", True):
+                        c2.update({"rot": True, "naming": rng.choice(["Num", "TsD", "NumD"]), "size": rng.choice([20, 60])})
+                        c2.pop("age", None)
+                    elif cur.get("naming") == "NumD":
+                        c2.update({"rot": True, "naming": "TsD", "size": 40})
+                        c2.pop("age", None)
+                    else:
+                        c2 = {"rot": False, "naming": "Num", **{k: c[k] for k in ("mode", "cap", "flush_ms") if k in c},
+                              "full": True}
+                    c2["subdir"] = cur.get("subdir", "logs")
+                    c2["basename"] = cur.get("basename", "app")
+                    for k in ("discr", "suffix"):
+                        if k in cur:
+                            c2[k] = cur[k]
+                        else:
+                            c2.pop(k, None)
+                    c2["crlf"] = False
+                steps_cfg.append(c2)
                 steps.append({"op": "Reset", "cfg": c2})
             elif x < 0.32:
                 steps.append({"op": "Reopen"})
@@ -315,9 +339,9 @@ def _c15_from_model(replays, sc0):
             elif st["op"] in ("Flush", "Trigger"):
                 steps.append({"op": st["op"]})
             elif st["op"] == "Stop":
-                steps.append({"op": "Stop"})
+                steps += [{"op": "Shutdown"}, {"op": "Stop"}]
         if steps[-1]["op"] != "Stop":
-            steps.append({"op": "Stop"})
+            steps += [{"op": "Shutdown"}, {"op": "Stop"}]
         base = {"naming": "Num", "rot": r["cfg"]["size"] >= 0}
         if r["cfg"]["size"] >= 0:
             base["size"] = r["cfg"]["size"]
@@ -354,7 +378,7 @@ def _rand_c15(rng, tier, sc0, grp0):
                 steps.append({"op": "Chunk", "hex": b.hex()})
             else:
                 steps.append({"op": "Flush"})
-        steps.append({"op": "Stop"})
+        steps += [{"op": "Shutdown"}, {"op": "Stop"}]
         scens += _c15_group(grp0 + i, base, steps, "rand", sc0 + len(scens))
     return scens
 
@@ -464,6 +488,14 @@ def foreign_names(c):
             f"{fixed}{sep}x{i0}{dot}",
             f"{fixed}{sep}{i0[:-1]}\u00e9{dot}",     # multi-byte character inside the infix
             f"{fixed}{sep}r2030-13-45_99-99-99{dot}" if not num else f"{fixed}{sep}r0000x{dot}",
+            ]
+    # compressed look-alikes: extra dots / extra parts in front of the suffix, non-ASCII digits
+    out += [f"{fixed}{sep}{i0}.{dot}.gz" if dot else f"{fixed}{sep}{i0}..gz",
+            f"{fixed}{sep}{inf[1]}.extra{dot}.gz",
+            f"{fixed}{sep}{inf[1]}.{dot}" if dot else f"{fixed}{sep}{inf[1]}.",
+            f"{fixed}{sep}{i0[:-1]}\uff17{dot}",          # full-width digit seven
+            f"{fixed}{sep}{i0[:-1]}\u0663{dot}",          # arabic-indic digit three
+            f"{fixed}{sep}{i0[:-1]}\uff17{dot}.gz",
             ]
     if cur:
         out += [f"{fixed}{sep}{cur}x{dot}", f"{fixed}{sep}{cur}{dot}.gz", f"{fixed}{sep}x{cur}{dot}"]
@@ -623,7 +655,15 @@ def _c16_decorate(s, j, rng):
     if c.get("rot", True) is False and not c.get("basename") and "discr" not in c and not c.get("use_ts"):
         c["basename"] = "plainfile"     # a file name must not be empty
     steps = []
+    fixed = "_".join([x for x in [c.get("basename", "app"), c.get("discr")] if x])
     for st in s["steps"]:
+        if st["op"] == "ExtCreate" and st["name"].startswith("PFX_"):
+            st = dict(st)
+            st["name"] = (fixed + "_" if fixed else "") + st["name"][4:]
+            if c.get("suffix") == "-" and st["name"].endswith(".log"):
+                st["name"] = st["name"][:-4]
+            elif c.get("suffix") not in (None, "-", "log") and st["name"].endswith(".log"):
+                st["name"] = st["name"][:-4] + "." + c["suffix"]
         steps.append(st)
         if st["op"] in ("Log", "Trigger", "Start", "Adv") and rng.random() < 0.5:
             steps.append({"op": "Elf", "sel": C16_SELS[rng.randrange(len(C16_SELS))]})
@@ -672,7 +712,18 @@ def C16(tier, seed):
             c["crlf"] = False
             if i % 4 == 0:
                 c = {"rot": False, "naming": "Num", "mode": "direct", "use_ts": (i % 8 == 0)}
-            steps = [{"op": "Start", "append": False}]
+            steps = []
+            if c.get("rot", True) and c["naming"] in ("Num", "NumD") and i % 3 == 0:
+                # earlier runs left files with high indexes (the index is not limited to five digits)
+                # (without cleanup: the order of files by name, which cleanup relies on, is documented to hold for
+                # five-digit indexes only - DESIGN.md, limits)
+                c.pop("k", None)
+                c.pop("m", None)
+                hi = rng.choice([99997, 99998, 123455])
+                sfx = "" if c.get("suffix") == "-" else "." + c.get("suffix", "log")
+                for q in range(2):
+                    steps.append({"op": "ExtCreate", "name": f"PFX_r{hi + q:05d}{sfx}", "content": "0000001|xx\n"})
+            steps.append({"op": "Start", "append": False})
             for _ in range(rng.choice([2, 5, 12])):
                 x = rng.random()
                 if x < 0.2 and c.get("rot", True):
@@ -1080,6 +1131,8 @@ def _rand_c04(rng, tier, sc0):
             if rng.random() < 0.3:
                 steps.append({"op": "Shutdown"})
         steps.append({"op": "Stop", "shutdown": rng.random() < 0.5})
+        if i % 4 == 1:
+            c["via"] = "flw"      # the FileLogWriter used directly: its own shutdown(), no PrimaryWriter in front
         out.append({"sc": sc0 + i, "cfg": c, "t0": 1000, "steps": steps, "origin": "rand", "obs": "sync",
                     "tag": {"clone_dropped": any(s["op"] == "DropClone" for s in steps)}})
     return out
